@@ -108,3 +108,24 @@ fn witness_c10_earlier_games_do_not_count() {
     }
     assert_eq!(bad, 0);
 }
+
+/// a repetition deep in the line counts even when the position is already in the transposition table from an earlier
+/// iteration: perpetual check by a side that is otherwise lost; the root has occurred twice and recurs at ply 4
+#[test]
+fn witness_c10_repetition_at_ply_four_with_warm_table() {
+    let fen = "1k6/1p6/8/Q7/8/5q2/PP4rr/K7 w - - 0 40";
+    let lap = ["a5d8", "b8a7", "d8a5", "a7b8"];
+    let mut bad = 0;
+    for depth in [4u64, 5, 6] {
+        let s = last_score(fen, &lap, "a5d8", depth);
+        let ok = matches!(s, Score::Centipawn { score } if score.abs() <= 50);
+        if !ok {
+            println!("FAILING-INPUT: fen={:?} moves={:?} go depth {} searchmoves a5d8: the line returns to the root for the third time at ply 4 but is valued {:?}", fen, lap, depth, s);
+            bad += 1;
+        }
+    }
+    // sanity of the probe: without the lap in the history the side to move is simply lost
+    let s = last_score(fen, &[], "a5d8", 4);
+    assert!(matches!(s, Score::Centipawn { score } if score < -300) || matches!(s, Score::Mate { .. }), "probe position is not lost without the repetition: {:?}", s);
+    assert_eq!(bad, 0);
+}
